@@ -302,6 +302,47 @@ theorem counter_sol_stats_counterexample (kCN : Nat) :
     simp [sigmaCounter, sigmaCount1, cexInp, countAbove, hI]
 
 
+/-- the same for the whole vectors under full recording: the accessor model applied to the state
+matrix of the run returns the run's `stats` arrays. -/
+theorem fromStates_times_eq_all (inp : Inputs ℝ) (kCN : Nat) (hall : ∀ i, i < inp.nVials → Hyp inp kCN i)
+    (hvis : ∀ i, i < inp.nVials → (finalV inp kCN i).tNuc ≠ none → never 0 (sigmaRow inp kCN i) = false) :
+    let t := timeVec (NN inp) inp.p.dt
+    let Xs := (List.range inp.nVials).map (sigmaRow inp kCN)
+    let mask := List.replicate inp.nVials true
+    tNucStates mask t Xs = (runWith inp kCN).tNucleation ∧
+    tSolStates inp.p.threshold mask t Xs = (runWith inp kCN).tSolidification := by
+  intro t Xs mask
+  obtain ⟨e1, e2⟩ := stats_eq_finalV inp kCN
+  have hlen : ∀ thr, (crossTimes thr t Xs).length = inp.nVials := by intro thr; simp [crossTimes, Xs]
+  have hs : ∀ thr, scatter mask (crossTimes thr t Xs) = crossTimes thr t Xs := by
+    intro thr
+    have := scatter_all_true (crossTimes thr t Xs)
+    rwa [hlen thr] at this
+  have key : ∀ i, i < inp.nVials →
+      (if never 0 (sigmaRow inp kCN i) then none else t[crossIdx 0 (sigmaRow inp kCN i)]?) = (finalV inp kCN i).tNuc ∧
+      optSub (if never inp.p.threshold (sigmaRow inp kCN i) then none
+              else t[crossIdx inp.p.threshold (sigmaRow inp kCN i)]?)
+             (if never 0 (sigmaRow inp kCN i) then none else t[crossIdx 0 (sigmaRow inp kCN i)]?)
+        = (finalV inp kCN i).tSol := by
+    intro i hi
+    have := fromStates_times_eq (hall i hi) (hvis i hi)
+    simp only [tSolStates, tNucStates, crossTimes, scatter, List.map_cons, List.map_nil, List.zipWith_cons_cons,
+      List.zipWith_nil_right, zero_real, List.cons.injEq, and_true] at this
+    exact this
+  constructor
+  · rw [e1, tNucStates, hs]
+    simp only [crossTimes, Xs, List.map_map, zero_real]
+    apply List.map_congr_left
+    intro i hi
+    exact (key i (List.mem_range.mp hi)).1
+  · rw [e2, tSolStates, tNucStates, hs, hs]
+    simp only [crossTimes, Xs, List.map_map, zero_real, List.zipWith_map_left,
+      List.zipWith_map_right, List.zipWith_self]
+    apply List.map_congr_left
+    intro i hi
+    exact (key i (List.mem_range.mp hi)).2
+
+
 /-! ### non-vacuity -/
 
 /-- the hypotheses are satisfiable on a concrete run in which the vial nucleates AND crosses the
